@@ -1,6 +1,7 @@
 """C07 — match-file lines survive format/parse round trips in every version."""
 from ..rules import matchlines as ML
 from ..rules import generic as G
+from ..rules import extra as X
 
 EXPLANATION = (
     "Static analysis of the 40+ match line classes in matchfile_base / matchlines_v0 / matchlines_v1 and their "
@@ -23,4 +24,5 @@ def run(ctx):
     ML.rule_to_v1(ctx)
     ML.rule_parser_lists(ctx)
     ML.rule_version_gates(ctx)
+    X.rule_fraction_str(ctx)
     G.rule_F8a(ctx, ["partitura.io.importmatch:parse_matchline", "partitura.io.matchlines_v1:to_v1"], "match lines")
